@@ -595,7 +595,7 @@ func postprocessParsed(lookup objLookup) {
 				if words[2][0] == '(' {
 					copy(words[2:], words[3:])
 				}
-				if words[2] == "host" {
+				if words[2] == "host" && len(words) > 3 {
 					words[3] = "x"    // Change to value generated by Netspoc.
 					words = words[:4] // Strip key, timeout
 					ref := ""
